@@ -10,7 +10,7 @@ THOROUGH_CONFIGS = ['dot', 'router']
 
 
 MANIFEST = {
-    "text": "Static decision of the tree mechanisms other than prefix splitting: traversal completeness of find/len/get (node regex tested, then every child visited, results unioned, no early exit), content conservation of insert/remove/retain as a def-to-drop must-use analysis (a stored value or subtree can be dropped only when proven empty / replaced by id / removed), anchoring constants of leaf and node regexes, provenance of the case flag of every regex built inside the tree, agreement of the lazy and compiled match, and replace-by-(pattern,id). Prefix-splitting soundness (a character-level loop over regex syntax) and equality with a linear scan for all histories are not decided. Also: traversal functions found by role with both result forms (returned vector / accumulator), emptied items keep the case flag, each item kind holds its own kind of regex, Node::insert routes an equal pattern to the child holding it, prefix sizes compared in characters.",
+    "text": "Static decision of the tree mechanisms other than prefix splitting: traversal completeness of find/len/get (node regex tested, then every child visited, results unioned, no early exit), content conservation of insert/remove/retain as a def-to-drop must-use analysis (a stored value or subtree can be dropped only when proven empty / replaced by id / removed), anchoring constants of leaf and node regexes, provenance of the case flag of every regex built inside the tree, agreement of the lazy and compiled match, and replace-by-(pattern,id). Prefix-splitting soundness (a character-level loop over regex syntax) and equality with a linear scan for all histories are not decided. Also: traversal functions found by role with both result forms (returned vector / accumulator), emptied items keep the case flag, each item kind holds its own kind of regex, Node::insert routes an equal pattern to the child holding it, prefix sizes compared in characters. Also (round 5): the scanner's character-class state — parentheses inside [...] are not group delimiters and the cut never lands inside a class (D24).",
     "technique": "static analysis: path-sensitive must-use (def-to-drop) analysis, decision tables and provenance over MIR",
 }
 
